@@ -39,8 +39,10 @@ def op (toks : List String) : Option String :=
       let r := fairV2 (← parseList? ps) (← parseNat? d) (← parseMap? m)
       some (match r with | none => "nil" | some x => showDistNZ x)
   | ["rate2", ps, d, m] => do
-      let r := rateV2 (← parseList? ps) (← parseNat? d) (← parseMap? m)
-      some (match r with | none => "nil" | some x => showDistNZ x)
+      let ps ← parseList? ps; let d ← parseNat? d
+      let r := rateV2 ps d (← parseMap? m)
+      let hyp := if floatHypsHold ps d then "" else " float-hypothesis-fails"
+      some ((match r with | none => "nil" | some x => showDistNZ x) ++ hyp)
   | ["fair1", ps, d, m] => do
       let r := fairV1 (← parseList? ps) (← parseNat? d) (← parseMap? m)
       some (match r with | none => "nil" | some x => showDistNZ x)
